@@ -108,6 +108,8 @@ def run(ctx):
     from props.c05 import omit_rule
     omit_rule(ctx, syn, rid="C18.OMIT")
     fresh_rule(ctx, mirq.Program(ctx.facts.mir()))
+    from props.c05 import alwaysid_rule
+    alwaysid_rule(ctx, rid="C18.ALWAYSID")   # a reference re-attached to another annotation validates against the wrong text
     fns = [f for f in syn.fns if f.file == FILE]
     by = {}
     for f in fns:
